@@ -86,8 +86,118 @@ def run(res, tier):
                                  "%s writes %s but reads %s" % (ty, ws, rs))
             res.violation("mir:record-asymmetry:" + ty, "%s: the fields read back (%s) differ in order or type from the fields written (%s)" % (ty, rs, ws), fn)
     n += check_counted_loops(res, E)
+    n += check_time_codec(res, E)
     res.distinct += n
     mprop.finish_engine(res, E)
+
+
+def check_time_codec(res, E):
+    """Time and Option<Time> are stored as the i64 of DateTime::timestamp() and read back with
+    Utc.timestamp_opt(v, 0): the value handed to the i64 writer must be exactly the result of timestamp() (or the
+    i64::MIN sentinel for None), and the reader must hand exactly the parsed i64 with nanoseconds 0 to
+    timestamp_opt - that pair is an inverse for every whole-second time; any arithmetic in between is not."""
+    import z3
+    from gating import must
+    n = 0
+    found = 0
+    for name, bodies in E.prog.bodies.items():
+        m = re.search(r"binio::<impl at src/utils/binio\.rs:[^>]*>::(compose|parse)$", name)
+        if not m:
+            continue
+        for b in bodies:
+            st_ = E.prog.self_type(name) or ""
+            sig = (b.args[0][1] if b.args else "") + " " + (b.ret or "")
+            if not re.search(r"x509::Time\b|\bTime\b", sig) or "HashMap" in sig:
+                continue
+            kind = m.group(1)
+            paths = [p for p in E.explore(b.parse(), max_visits=2, nomut=[r"."]) if p.kind == "return"]
+            found += 1
+            res.functions.append("utils::binio %s for %s (MIR): value written / read is the timestamp itself" % (kind, sig.strip()[:60]))
+            for i, p in enumerate(paths):
+                calls = [e for e in p.events if e.kind in ("call", "pure")]
+                if kind == "compose":
+                    wr = [e for e in calls if re.search(r"<i64 as (binio::)?Compose<W>>::compose$", e.callee or "")]
+                    ts = [e for e in calls if re.search(r"DateTime::<.*>::timestamp$|DateTime::timestamp$", e.name)]
+                    for e in wr:
+                        n += 1
+                        leaf = e.args[0].get(())
+                        val = mir.peek(E, p.mem, leaf.loc) if isinstance(leaf, mir.Ref) else leaf
+                        good = any(t.dest and t.dest.get(()) is val for t in ts)
+                        if not good and isinstance(val, mir.Opq) and re.search(r"i64>::MIN$", val.origin or "") and not ts:
+                            good = True        # Option<Time>::None is stored as the i64::MIN sentinel
+                        if not good and mir.is_z(val):
+                            # the None sentinel of Option<Time>: i64::MIN
+                            good = must(E, p, val == z3.BitVecVal(1 << 63, 64)) or any(
+                                mir.is_z(t.dest.get(())) and must(E, p, val == t.dest.get(())) for t in ts if t.dest)
+                        if not good and not any(v_["key"] == "mir:time-codec:compose" for v_ in res.violations):
+                            ok = native_time_roundtrip(res)
+                            fn = mprop.write_cex(res, "time_compose_%d" % i, p, E,
+                                                 "the i64 written for a Time is %s, not the result of timestamp()" % (str(val)[:200],))
+                            if ok is False:
+                                res.inconclusive.append("Time codec: written value is not timestamp() but the native round trip passes")
+                            else:
+                                res.violation("mir:time-codec:compose",
+                                              "a Time is not stored as its own timestamp() (value written: %s): times do not read back as "
+                                              "written%s" % (str(val)[:120], "; reproduced natively" if ok else ""), fn)
+                else:
+                    rd = [e for e in calls if re.search(r"<i64 as (binio::)?Parse<R>>::parse$", e.callee or "")]
+                    mk = [e for e in calls if re.search(r"timestamp_opt$", e.name)]
+                    for e in mk:
+                        n += 1
+                        secs, nanos = e.args[1].get(()), e.args[2].get(())
+                        src = [mir.peek(E, p.mem, (("o", r.dest.get(()).id), ("v", "Ok"), ("f", 0))) for r in rd
+                               if r.dest and isinstance(r.dest.get(()), mir.Opq)]
+                        good = any(x is secs or (mir.is_z(x) and mir.is_z(secs) and must(E, p, x == secs)) for x in src) \
+                            and mir.is_z(nanos) and must(E, p, nanos == 0)
+                        if not good and not any(v_["key"] == "mir:time-codec:parse" for v_ in res.violations):
+                            ok = native_time_roundtrip(res)
+                            fn = mprop.write_cex(res, "time_parse_%d" % i, p, E,
+                                                 "timestamp_opt is called with (%s, %s), not with (the parsed i64, 0)" % (str(secs)[:100], str(nanos)[:40]))
+                            if ok is False:
+                                res.inconclusive.append("Time codec: reader does not pass the parsed value on unchanged but the native round trip passes")
+                            else:
+                                res.violation("mir:time-codec:parse", "a stored Time is not rebuilt from exactly the stored seconds", fn)
+    if found < 4:
+        res.inconclusive.append("Time codec: only %d of the 4 Time / Option<Time> codec functions found" % found)
+    return n
+
+
+def native_time_roundtrip(res):
+    """Real Time / Option<Time> round trips for whole-second times on both sides of the epoch."""
+    if "time" in _NATIVE:
+        return _NATIVE["time"]
+    import os
+    import nativetest
+    from vcommon import VERIF
+    src = """// generated by props/c28.py: native round trip of the Time codec
+use super::*;
+#[test]
+fn c28_native_time_roundtrip() {
+    let mut bad = Vec::new();
+    for secs in [-2_000_000_000i64, -86_400, -1, 0, 1, 59, 1_000_000_000, 1_700_000_000, 4_102_444_800] {
+        let t: Time = Utc.timestamp_opt(secs, 0).single().unwrap().into();
+        let mut buf = Vec::new();
+        t.compose(&mut buf).unwrap();
+        let back = Time::parse(&mut &buf[..]).ok();
+        let mut buf2 = Vec::new();
+        Some(t).compose(&mut buf2).unwrap();
+        let back2 = Option::<Time>::parse(&mut &buf2[..]).ok();
+        if back != Some(t) || back2 != Some(Some(t)) { bad.push(secs) }
+    }
+    let mut buf = Vec::new();
+    Option::<Time>::None.compose(&mut buf).unwrap();
+    if Option::<Time>::parse(&mut &buf[..]).ok() != Some(None) { bad.push(i64::MIN) }
+    println!("C28-NATIVE-TIME timestamps that do not read back as written: {:?}", bad);
+    assert!(bad.is_empty(), "times that do not round-trip: {:?}", bad);
+}
+"""
+    with open(os.path.join(VERIF, "native", "c28_generated.rs"), "w") as f:
+        f.write(src)
+    failed, passed, out = nativetest.run_native_test("native_c28", "c28_native_time_roundtrip")
+    obs = re.findall(r"C28-NATIVE-TIME (.*)", out)
+    res.extra.setdefault("native_replays", []).append({"test": "c28_native_time_roundtrip", "failed": failed, "observed": obs[:2] or [out[-300:]]})
+    _NATIVE["time"] = True if failed else (False if passed else None)
+    return _NATIVE["time"]
 
 
 def check_counted_loops(res, E):
